@@ -360,7 +360,7 @@ def collect(ctx, n, _unused=0):
 
 def run(ctx):
     status = coqbuild.prove("C13", THEOREMS)
-    agg, items, corr, cases = collect(ctx, 200 if ctx.quick else 3000)
+    agg, items, corr, cases = collect(ctx, 200 if ctx.quick else 9000)
     for cls, det, c in items:
         ctx.item(cls, {"stage": "cdd.compound.sync_properties.sync_properties on generated module pairs", "clause": cls,
                        "input": {k: c[k] for k in ("input_param", "output_param", "wrap", "eval", "input_src", "output_src")} if c else None,
